@@ -157,9 +157,9 @@ def ensure_driver(name="driver", release=False, rustflags=None):
 
 
 # ---------------------------------------------------------------- running cases
-def _chunks(lines, k):
+def _chunks(lines, k, per=200):
     n = len(lines)
-    k = max(1, min(k, (n + 199) // 200))
+    k = max(1, min(k, (n + per - 1) // per))
     size = (n + k - 1) // k
     return [lines[i:i + size] for i in range(0, n, size)]
 
@@ -173,10 +173,10 @@ def _parse_out(text):
     return res
 
 
-def run_model(case_lines, tag="m"):
+def run_model(case_lines, tag="m", per=200):
     """Evaluate cases with the extracted model. Returns {id: [CLASS, payload...]}."""
     os.makedirs(os.path.join(CACHE, "work"), exist_ok=True)
-    chunks = _chunks(case_lines, NPROC)
+    chunks = _chunks(case_lines, NPROC, per)
 
     def one(ix_chunk):
         ix, chunk = ix_chunk
@@ -198,11 +198,11 @@ def run_model(case_lines, tag="m"):
     return res
 
 
-def run_driver(case_lines, driver=None, tag="d", extra_env=None, timeout_ms=10000):
+def run_driver(case_lines, driver=None, tag="d", extra_env=None, timeout_ms=10000, per=200):
     """Run cases through the Rust driver (sharded). Returns {id: [CLASS, payload...]}."""
     driver = driver or driver_path()
     os.makedirs(os.path.join(CACHE, "work"), exist_ok=True)
-    chunks = _chunks(case_lines, NPROC)
+    chunks = _chunks(case_lines, NPROC, per)
     env = dict(os.environ)
     env["VERIF_CASE_TIMEOUT_MS"] = str(timeout_ms)
     # the library reads these; keep the environment of the driver minimal and deterministic
